@@ -1103,6 +1103,16 @@ func (g *Gen) exp(d int) {
 		}
 		op := ops[g.intn(len(ops), "binop")]
 		// parenthesise operands so that the intended tree is independent of precedence
+		// (Patterns: one time in four the expression is a link of an unparenthesised chain of the same
+		// operator, `x op L op R` or `L op R op x`: which operands meet is decided by associativity)
+		chain := 0
+		if g.cfg.Patterns && g.intn(4, "opChain") == 0 {
+			chain = 1 + g.intn(2, "chainSide")
+		}
+		if chain == 1 {
+			g.operand(0)
+			g.emit(op)
+		}
 		from := len(g.Toks)
 		g.operand(d - 1)
 		to := len(g.Toks)
@@ -1124,6 +1134,10 @@ func (g *Gen) exp(d int) {
 			g.emit([]string{"1.5", "0.1", "2.0", "1", "10"}[g.intn(5, "numConst")])
 		default:
 			g.operand(d - 1)
+		}
+		if chain == 2 {
+			g.emit(op)
+			g.operand(0)
 		}
 	case 9:
 		uops := []string{"not", "-", "#"}
